@@ -194,6 +194,12 @@ EFFECT = [
     "acc = [[w]]\nacc += [sess]\nacc[1]['tags'][i].push(w)",
     "c2[zero] = a\nc2[zero][i].push(w)",
     "c3[one] = a\nc3[one][i].push(w)",
+    # EMPTY containers are values too: storing one stores a copy
+    "c[k] = em\nc[k].push(w)\nx = em\nx.push(w)\nx",
+    "e['n'] = ed\ne['n']['z'] = w\ny = ed\ny['z'] = w\ny",
+    "c[k] = a2[0]\nc[k].push(w)\ne['m'] = a2[1]\ne['m']['z'] = w",
+    "c[k] = [w]\nc[k] += em\nx = [em, ed]\nx[0].push(w)\nx[1]['z'] = w",
+    "acc = [w]\nacc += [em]\nacc[1].push(w)\nc[k] = ed\nc[k]['z'] = w",
 ]
 MAY_FAIL = (19, 20, 21, 22)          # a refusal (error, nothing stored) is as good as an independent copy
 if isinstance(hlib.PARAM, dict) and "t" in hlib.PARAM:
@@ -213,9 +219,12 @@ def effect(v0: int, v1: int, v2: int, w: int, i: int, j: int, k: int, after: int
     e = {}
     import threading
     sess = {'tags': a, 'lock': threading.Lock()}          # a host structure that copy.deepcopy cannot copy
-    names = {'a': a, 'd': d, 'c': c, 'e': e, 'i': i, 'j': j, 'k': k, 'w': w, 'sess': sess, 'c2': [], 'c3': [0], 'zero': 0, 'one': 1}
+    em, ed, a2 = [], {}, [[], {}]
+    names = {'a': a, 'd': d, 'c': c, 'e': e, 'i': i, 'j': j, 'k': k, 'w': w, 'sess': sess, 'c2': [], 'c3': [0], 'zero': 0, 'one': 1,
+             'em': em, 'ed': ed, 'a2': a2}
     out = run_eval(EFFECT[t], names, 1000)
     assert out[0] == 'ok' or t in MAY_FAIL, "template failed"
+    assert em == [] and ed == {} and a2 == [[], {}], "an empty host container changed although only values stored from it were mutated"
     assert a == [[v0, v1], [v2]] and d == {'p': [v0], 'q': v1}, \
         "a host object changed although only variables assigned from it were mutated"
     if t == 6:
@@ -253,4 +262,51 @@ def direct_mutation(v0: int, w: int, i: int) -> None:
     a = [[v0], [v0]]
     out = run_eval(hlib.PARAM["text"], {'a': a, 'i': i, 'w': w}, 1000)
     assert out[0] == 'ok' and a[i] == [v0, w] and a[1 - i] == [v0]
+    hlib.done()
+
+
+# the same statement evaluated again (a host with a parse cache re-uses the tree): every evaluation stores a fresh value
+from sqv.harness import txt as _txt          # (its parsers are constructed at import, outside any explored path)
+TWICE = ["x = [1, 2]", "x = {'k': [1]}", "x = [[1], 2]\ny = x", "c[0] = [1, 2]", "c[0] = {'k': []}", "x = []\nc[1] = {}",
+         "x = [w]", "f = v => [1, 2]\nx = f(0)", "x = 'ab'\ny = [x, [x]]", "x = [1, 2] + [3]", "acc = [[1]]\nacc += [[2]]"]
+
+
+def twice_cached(w: int, cached: bool, mutate: int) -> None:
+    """
+    pre: 0 <= mutate <= 2
+    post: True
+    """
+    hlib.enter(locals())
+    text = TWICE[hlib.PARAM["t"]]
+    cached = True if cached else False
+    mutate = hlib.concrete(mutate, 0, 2)
+    with hlib.native():
+        w0 = 0
+        P = _txt.CACHING if cached else _txt.PARSER
+        n1 = {'w': w0, 'c': [0, 0]}
+        n2 = {'w': w0, 'c': [0, 0]}
+        P.eval(text, n1)
+        want = _realcopy.deepcopy({k: v for k, v in n1.items() if not callable(v)})          # what the first evaluation stored
+        for key in ('x', 'y', 'acc'):
+            v = n1.get(key)
+            if isinstance(v, list) and mutate:
+                v.append(99) if mutate == 1 else v.insert(0, [98])
+                if v and isinstance(v[0], list):
+                    v[0].append(97)
+            elif isinstance(v, dict) and mutate:
+                v['zz'] = 99
+                for vv in v.values():
+                    if isinstance(vv, list):
+                        vv.append(96)
+        if mutate:
+            for slot in n1['c']:
+                if isinstance(slot, list):
+                    slot.append(95)
+                elif isinstance(slot, dict):
+                    slot['zz'] = 94
+        P.eval(text, n2)
+        got = {k: v for k, v in n2.items() if not callable(v)}
+        shared = [k for k in got if isinstance(got[k], (list, dict)) and k != 'c' and got[k] is n1.get(k)]
+    assert not shared, "%r evaluated twice: both evaluations stored the very same object in %s" % (text, shared)
+    assert got == want, "%r evaluated a second time stores %r (the first evaluation stored %r): the first evaluation's value, mutated by the host since, was re-used" % (text, got, want)
     hlib.done()
